@@ -19,6 +19,7 @@ func init() {
 func checkC10(c *Ctx) {
 	p := c.P
 	// "only rows matching the chain's conditions and the model value's primary key change" (same rule as C16.key-all)
+	checkC16BlockKeepsChain(c, c.Rule("C10.block-keeps-chain", "the handle a transaction block receives keeps the chain's Select/Omit (batched creates): nested arm and Begin agree on NewDB", 2))
 	checkKeyAll(c, c.Rule("C10.key-all", "an update through Model(x) is pinned to x's row through every primary field", 1))
 	stmtT := p.Named(pkgGorm, "Statement")
 	saoc := p.Method(stmtT, "SelectAndOmitColumns")
